@@ -85,6 +85,10 @@ type BuildInfo struct {
 	OK       bool              // false: some reachable node does not exist in the universe
 	Conflict bool              // some path is reachable at two or more versions
 	Cycle    bool              // the reachable node graph has a cycle
+	// Invalid: some reachable dawn.toml names a requirement version that is not a canonical
+	// semantic version (build metadata, short form, leading zeros): the configuration loader
+	// rejects such a file, so the resolution must fail
+	Invalid bool
 }
 
 // RefBuildList is breadth-first reachability over (path, version) edges from the roots,
@@ -112,6 +116,11 @@ func (w *World) RefBuildList(roots []Req) *BuildInfo {
 		if !ok {
 			bi.OK = false
 			continue
+		}
+		for _, q := range reqs {
+			if !semver.IsValid(q.Version) || semver.Canonical(q.Version) != q.Version {
+				bi.Invalid = true
+			}
 		}
 		for _, q := range reqs {
 			if !bi.Reach[q] {
